@@ -1,14 +1,17 @@
 #!/bin/bash
 # tools/seedcheck.sh <ID> <dir with patch.diff, seed_demo_test.go, meta.json> [checks to run, default <ID>]
 # 1. confirms the seeded change in a scratch worktree (suite passes, demo fails with it, passes without)
-# 2. applies it to /repo, runs the checks, undoes it; prints which checks raised a VIOLATION
+# 2. runs the checks against the change and prints which raised a VIOLATION.
+#    Default: the change is applied to /repo and undone (the registered commands as registered).
+#    SCRATCH=1: the checks are pointed at the scratch worktree (VERIF_TOOLING_REPO), /repo is not touched, so
+#    several seedchecks can run side by side.
 set -u
-ID=$1; SRC=$2; shift 2; CHECKS=${*:-$ID}
+ID=$1; SRC=$2; shift 2; CHECKS=${*:-${ID:0:3}}
 export GOFLAGS=-mod=mod GOPROXY=off GOSUMDB=off GOTOOLCHAIN=local
 WT=/tmp/sv/$ID.$$
 mkdir -p /tmp/sv
 git -C /repo worktree add -q --detach $WT HEAD || exit 3
-cleanup() { git -C /repo worktree remove --force $WT 2>/dev/null; }
+cleanup() { git -C /repo worktree remove --force $WT 2>/dev/null; rm -rf /tmp/sv/out.$ID.$$; }
 trap cleanup EXIT
 ( cd $WT && git apply $SRC/patch.diff ) || { echo "CONFIRM patch does not apply"; exit 3; }
 cp $SRC/seed_demo_test.go $WT/jsonschema/seed_demo_test.go
@@ -25,7 +28,13 @@ case "$SUITE" in ok*) ;; *) echo "CONFIRM REJECTED (suite fails)"; exit 4;; esac
 case "$DEMO_WITH" in ok*) echo "CONFIRM REJECTED (demo passes with change)"; exit 4;; esac
 case "$DEMO_WITHOUT" in ok*) ;; *) echo "CONFIRM REJECTED (demo fails without change)"; exit 4;; esac
 cd /verif
-git -C /repo apply $SRC/patch.diff || exit 3
+if [ "${SCRATCH:-0}" = 1 ]; then
+  rm -f $WT/jsonschema/seed_demo_test.go
+  git -C $WT apply $SRC/patch.diff || exit 3
+  export VERIF_TOOLING_REPO=$WT VERIF_TOOLING_OUT=/tmp/sv/out.$ID.$$
+else
+  git -C /repo apply $SRC/patch.diff || exit 3
+fi
 for c in $CHECKS; do
   OUT=$(./check $c --tier ${TIER:-quick} 2>&1); RC=$?
   N=$(echo "$OUT" | grep -c '^VIOLATION')
@@ -33,6 +42,8 @@ for c in $CHECKS; do
   echo "$OUT" | grep '^violation:' | head -2 | cut -c1-400
   [ $RC -eq 2 ] && echo "$OUT" | tail -5 | cut -c1-300
 done
-git -C /repo checkout -- .
-git -C /repo status --short
-rm -rf /verif/replays
+if [ "${SCRATCH:-0}" != 1 ]; then
+  git -C /repo checkout -- .
+  git -C /repo status --short
+  rm -rf /verif/replays
+fi
